@@ -11,7 +11,7 @@ PROPERTY = "C06"
 RULE = ("Cases = (routine, matrix, bin_swaps/itr, wei_freq, seed) for randmio_und_signed, randmio_dir_signed, null_model_und_sign, "
         "null_model_dir_sign; matrices signed on the grid +-k/8, n=4..12 (20 thorough), at least one positive and one negative connection by "
         "construction, symmetric for _und and genuinely asymmetric for _dir, densities from sparse to full, empty diagonal (null models also with "
-        "a nonzero diagonal, which they clear); itr/bin_swaps in {0,1,2,5}; wei_freq in {0,.1,.25,.5,1}. Oracle = exact per-node counts of "
+        "a nonzero diagonal, which they clear); itr/bin_swaps in {0,1,2,5}; wei_freq in {0,.05,.1,.15,.25,.3,.35,.4,.5,.6,.7,.9,1}. Oracle = exact per-node counts of "
         "positive and negative entries per row and per column, exact sorted positive / negative weight multisets, empty diagonal, symmetry, and "
         "np.corrcoef of the input's and output's signed strength vectors recomputed independently. Non-trivial = output differs from the "
         "(diagonal-cleared) input and the input's signed degree sequence is not constant; distinct by hash of the case.")
@@ -193,7 +193,7 @@ def cases(draw, name, nmax):
     case = {"fn": name, "W": W, "itr": draw(st.sampled_from([2, 1, 5, 0])), "seed": draw(gen.seeds()),
             "order": draw(st.sampled_from(gen.ORDERS)), "scale": scale, "dtype": dtype}
     if null:
-        case["wei_freq"] = draw(st.sampled_from([0.5, 0, 1, 0.25, 0.1]))
+        case["wei_freq"] = draw(st.sampled_from([0.5, 0, 1, 0.25, 0.1, 0.9, 0.7, 0.4, 0.3, 0.15, 0.35, 0.05, 0.6]))
     return case
 
 
